@@ -1,8 +1,11 @@
 package main
 
 import (
+	"runtime"
+
 	"bytes"
 	"fmt"
+	"github.com/WICG/webpackage/go/verifapi"
 	"math/rand"
 	"net/http"
 	"strings"
@@ -123,7 +126,22 @@ func genSpec(r *rand.Rand, ver version.Version, big bool) *sxSpec {
 
 // fullEvent signs, dumps every byte-level artefact, writes, reads back and verifies at the given instants.
 func fullEvent(id string, sp *sxSpec, kc *keyCert, times [][2]int64) {
-	se := buildSigned(sp, kc)
+	finishFull(id, sp, kc, buildSigned(sp, kc), times)
+}
+
+// gateAlg holds a signature in flight: Sign announces itself and waits before it signs the message it was handed.
+type gateAlg struct {
+	inner            verifapi.SigningAlgorithm
+	entered, release chan struct{}
+}
+
+func (g *gateAlg) Sign(m []byte) ([]byte, error) {
+	g.entered <- struct{}{}
+	<-g.release
+	return g.inner.Sign(m)
+}
+
+func finishFull(id string, sp *sxSpec, kc *keyCert, se *signedEx, times [][2]int64) {
 	ev := map[string]interface{}{"case": id, "kind": "full", "xin": se.xin, "rs": sp.rs, "signer": signerRec(sp, kc), "signerr": se.err}
 	e := se.e
 	ev["x"] = xOf(e)
@@ -182,12 +200,59 @@ func sxgFull(args []string) error {
 	}
 	id := 0
 	for i := 0; i < n; i++ {
+		// a batch: the three exchanges are all prepared (NewExchange + MiEncodePayload) before the first is signed and
+		// written, as a server preparing several responses does; each must still be exactly what it was given
+		type item struct {
+			id string
+			sp *sxSpec
+			kc *keyCert
+			se *signedEx
+		}
+		var batch []item
 		for _, ver := range version.AllVersions {
 			id++
 			sp := genSpec(r, ver, thorough || i%10 == 0)
 			sp.shared = i%2 == 1 // every other round signs through the one long-lived Signer, certificate and key changing under it
-			fullEvent(fmt.Sprintf("f%d", id), sp, kcs[(id+i)%3], instants(sp))
+			batch = append(batch, item{fmt.Sprintf("f%d", id), sp, kcs[(id+i)%3], prepareEx(sp)})
 		}
+		for _, it := range batch {
+			if it.se.err == "" {
+				signEx(it.se, it.sp, it.kc, nil)
+			}
+			finishFull(it.id, it.sp, it.kc, it.se, instants(it.sp))
+		}
+	}
+	// a signature held in flight while another exchange is signed completely (one scheduler thread, so that both calls
+	// share whatever per-thread state the library keeps): each signature must still cover its own message
+	{
+		prev := runtime.GOMAXPROCS(1)
+		for i := 0; i < 6; i++ {
+			verA, verB := version.AllVersions[i%3], version.AllVersions[(i+1+i/3)%3]
+			spA, spB := genSpec(r, verA, false), genSpec(r, verB, false)
+			kcA, kcB := kcs[i%2], kcs[(i+1)%2]
+			seA, seB := prepareEx(spA), prepareEx(spB)
+			if seA.err != "" || seB.err != "" {
+				continue
+			}
+			inner, err := verifapi.SigningAlgorithmForPrivateKey(kcA.key, crandReader())
+			if err != nil {
+				return err
+			}
+			g := &gateAlg{inner, make(chan struct{}), make(chan struct{})}
+			done := make(chan struct{})
+			go func() { signEx(seA, spA, kcA, g); close(done) }()
+			select {
+			case <-g.entered:
+				signEx(seB, spB, kcB, nil)
+				g.release <- struct{}{}
+			case <-done: // the signer refused before asking for a signature
+			}
+			<-done
+			id++
+			finishFull(fmt.Sprintf("i%da", id), spA, kcA, seA, instants(spA)[:2])
+			finishFull(fmt.Sprintf("i%db", id), spB, kcB, seB, instants(spB)[:2])
+		}
+		runtime.GOMAXPROCS(prev)
 	}
 	// boundary grid: URL length 65535/65536/65537, Signature length 16384/16385, header block 524288/524289
 	for _, ver := range version.AllVersions {
